@@ -36,7 +36,7 @@ def _merge(total, rep):
     total["memo_identities"] = max(total.get("memo_identities", 0), rep.get("memo_identities", 0))
 
 
-def native_shard(binary, seed, count, maxops, profile, samples, workdir, tag, env=None, extra=()):
+def native_shard(binary, seed, count, maxops, profile, samples, workdir, tag, env=None, extra=(), max_crashes=50):
     """One process; restarts after a fatal signal, recording the history that died.
     `binary` may be a list (tool prefix + binary, e.g. valgrind)."""
     total, crashes = {}, []
@@ -67,7 +67,7 @@ def native_shard(binary, seed, count, maxops, profile, samples, workdir, tag, en
         crashes.append({"history_seed": hseed, "index": died_at, "returncode": r.returncode,
                         "stderr_tail": r.stderr.decode(errors="replace")[-600:],
                         "stderr_head": r.stderr.decode(errors="replace")[:3000]})
-        if len(crashes) > 50:
+        if len(crashes) > max_crashes:
             raise Inconclusive("pico_mon keeps dying")
         start = died_at + 1
     total["crashes"] = crashes
